@@ -107,7 +107,12 @@ class WriteMemoryByAddress(BaseService):
 
         response.service_data = cls.ResponseData(
             alfid_echo=response.data[0],
-            memory_location_echo=MemoryLocation.from_bytes(address_bytes=address_echo, memorysize_bytes=memorysize_echo)
+            # The echo has the widths of the request (up to 64 bits each); decode it symmetrically
+            memory_location_echo=MemoryLocation(
+                address=int.from_bytes(address_echo, 'big'),
+                memorysize=int.from_bytes(memorysize_echo, 'big'),
+                address_format=len(address_echo) * 8,
+                memorysize_format=len(memorysize_echo) * 8)
         )
 
         return cast(WriteMemoryByAddress.InterpretedResponse, response)
